@@ -19,24 +19,24 @@ import (
 type Item struct {
 	Family string     `json:"family"`
 	Opts   codec.Opts `json:"opts"`
-	Frac   float64    `json:"frac"`   // fraction of ordered pairs kept (hash sampled)
-	Void   bool       `json:"void"`   // also pair every document with the void document
-	Mode   string     `json:"mode"`   // driver specific
-	NF     bool       `json:"nf"`     // null-free documents only
-	Max    int        `json:"max"`    // cap on targets / variants per session (0 = driver default)
+	Frac   float64    `json:"frac"` // fraction of ordered pairs kept (hash sampled)
+	Void   bool       `json:"void"` // also pair every document with the void document
+	Mode   string     `json:"mode"` // driver specific
+	NF     bool       `json:"nf"`   // null-free documents only
+	Max    int        `json:"max"`  // cap on targets / variants per session (0 = driver default)
 }
 
 type Plan struct {
-	Driver   string `json:"driver"`
-	Seed     int64  `json:"seed"`
-	Shards   int    `json:"shards"`
-	Out      string `json:"out"`
-	Universe string `json:"universe"`
-	Table    string `json:"table"`
-	Items    []Item `json:"items"`
-	YamlEvery int   `json:"yaml_every"`
-	Bins     map[string]string `json:"bins"`
-	Extra    map[string]any    `json:"extra"`
+	Driver    string            `json:"driver"`
+	Seed      int64             `json:"seed"`
+	Shards    int               `json:"shards"`
+	Out       string            `json:"out"`
+	Universe  string            `json:"universe"`
+	Table     string            `json:"table"`
+	Items     []Item            `json:"items"`
+	YamlEvery int               `json:"yaml_every"`
+	Bins      map[string]string `json:"bins"`
+	Extra     map[string]any    `json:"extra"`
 }
 
 type Entry struct {
